@@ -27,13 +27,15 @@ Trace == ndJsonDeserialize("trace.ndjson")
 
 NR == 3
 
-VARIABLES l, ci, rs, snaps, skip, bad, stats
-vars == <<l, ci, rs, snaps, skip, bad, stats>>
+VARIABLES l, ci, rs, snaps, skip, bad, stats,
+          disp      \* per runner: t0 (ms) of the Next call that started the pending command
+vars == <<l, ci, rs, snaps, skip, bad, stats, disp>>
 
 P == Cases[ci]
 
 Init == /\ l = 1 /\ ci = 1 /\ rs = <<>> /\ snaps = <<>> /\ skip = TRUE /\ bad = <<>>
-        /\ stats = [checked |-> 0, oos |-> 0, skipped |-> 0, cases |-> 0]
+        /\ stats = [checked |-> 0, oos |-> 0, skipped |-> 0, cases |-> 0, waits |-> 0]
+        /\ disp = [r \in 1..NR |-> 0]
 
 VarsArr(p, store) == [i \in DOMAIN p.vars |-> store[p.vars[i]]]
 VisitsArr(p, visits) == [i \in DOMAIN p.nodes |-> visits[p.nodes[i].title]]
@@ -66,13 +68,24 @@ StepNext(e) ==
       expOf(f) == CASE f = "out" -> t.out [] f = "ccalls" -> t.ccalls [] f = "fcalls" -> t.fcalls
                     [] f = "writes" -> t.writes [] f = "vars" -> VarsArr(P, t.store)
                     [] f = "visits" -> VisitsArr(P, t.visits)
+      \* <<wait n>> reports completion no earlier than n seconds after it started (C10):
+      \* the call that resumes ended at t1, the call that dispatched began at disp[r]
+      isWaitDone == pre.cmd.st = "run" /\ pre.cmd.arg.t = "n" /\ e.in.done
+      early == isWaitDone /\ (e.t1 - disp[e.r]) * pre.cmd.arg.d < pre.cmd.arg.n * 1000
   IN IF t.out.k = "oos"
      THEN /\ skip' = TRUE /\ stats' = Bump("oos") /\ UNCHANGED <<rs, snaps, bad>>
+     ELSE IF early
+     THEN /\ skip' = TRUE /\ stats' = Bump("checked")
+          /\ bad' = Report(e, "wait-too-early", <<"wait-too-early">>,
+                           [seconds |-> pre.cmd.arg, atLeastMs |-> (pre.cmd.arg.n * 1000) \div pre.cmd.arg.d],
+                           [elapsedMs |-> e.t1 - disp[e.r]], pre)
+          /\ UNCHANGED <<rs, snaps>>
      ELSE IF mism # <<>>
      THEN /\ skip' = TRUE /\ stats' = Bump("checked")
           /\ bad' = Report(e, mism[1], mism, expOf(mism[1]), o[mism[1]], pre)
           /\ UNCHANGED <<rs, snaps>>
-     ELSE /\ rs' = [rs EXCEPT ![e.r] = t] /\ stats' = Bump("checked")
+     ELSE /\ rs' = [rs EXCEPT ![e.r] = t]
+          /\ stats' = [stats EXCEPT !.checked = @ + 1, !.waits = @ + (IF isWaitDone THEN 1 ELSE 0)]
           /\ UNCHANGED <<snaps, skip, bad>>
 
 StepSnap(e) ==
@@ -119,6 +132,9 @@ StepRestoreBad(e) ==
 TraceStep ==
   /\ l <= Len(Trace)
   /\ l' = l + 1
+  /\ LET e == Trace[l] IN
+     \* remember when a command was dispatched (the pre-state had none pending)
+     disp' = IF e.ev = "next" /\ ~skip /\ rs[e.r].cmd.st = "none" THEN [disp EXCEPT ![e.r] = e.t0] ELSE disp
   /\ LET e == Trace[l] IN
      IF e.ev = "reset"
      THEN /\ ci' = e.case
